@@ -292,13 +292,23 @@ pub fn run(ctx: &Ctx) -> Result<Run, String> {
         g.transitions += st.evaluations;
         g.stats.count("client_instance_differential_histories", st.evaluations);
         g.stats.merge(st);
+        let names: Vec<(String, bool)> = extra_names().into_iter().flat_map(|n| [(n.clone(), false), (n, true)]).collect();
+        let st = crate::core::par::sweep_cases(&names, ctx.threads, |(n, reg), st| {
+            st.case(&(n, reg), true, "extra-name");
+            for (k, d) in eval_extra_name(n, *reg) {
+                st.finding(Finding::new(format!("extra-name/kind={k}"), d, json!({"extra_name": {"name": n, "register": reg}})));
+            }
+        });
+        g.transitions += st.evaluations;
+        g.stats.count("extra_client_data_names", st.evaluations);
+        g.stats.merge(st);
         let st = inst::colliding_sweep("shared-state");
         g.transitions += st.evaluations;
         g.stats.merge(st);
     }
     let mut run = Run::from_stats(
         "model_checking",
-        "explicit-state BFS over histories: register(rp in 2, user in 2) and authenticate(origin/RP in 4 incl. a sub-domain origin of the same RP and an RP without credentials, allow list in {absent, empty, [own], [unknown, own], [unknown], [credential of another RP], [unknown id with an unknown credential type]}, userVerification in {required, preferred, discouraged with and without the user verifying anyway}, client-data mode in 3) plus 10 challenges on two base assertions, from the empty and two seeded stores, on a real Client over the contract store; every assertion is verified by an independent relying party (ECDSA verify under the key derived from the stored scalar, client data, rpIdHash, flags, user handle). Plus the instance differential: the complete tree of histories to depth 3 (thorough 4) over {assertion with the seeded / no / an unknown / the first created credential, registration rk on/off, getInfo, a registration and an assertion dropped while the user step is pending} on ONE long-lived Authenticator against fresh Authenticators per operation, on the contract store, Arc<Mutex<MemoryStore>> and Arc<Mutex<Option<Passkey>>> (results and final store must agree), and the same for ONE long-lived Client against fresh Clients over {registration rk/credProps on two origins, authentication with the seeded / no / an unknown / the first created credential, with and without prf, a request refused for its RP id}. State shared between instances: on one fresh thread, three authenticators whose stores hold the SAME credential id with three different keys (two RPs) assert in turn, twice, and one key handle is U2F-registered, used, re-registered and used again; every signature must verify under the key its own store holds. States are deduplicated on (RP, user handle, counter) per record in creation order; every transition is a distinct non-trivial real ceremony",
+        "explicit-state BFS over histories: register(rp in 2, user in 2) and authenticate(origin/RP in 4 incl. a sub-domain origin of the same RP and an RP without credentials, allow list in {absent, empty, [own], [unknown, own], [unknown], [credential of another RP], [unknown id with an unknown credential type]}, userVerification in {required, preferred, discouraged with and without the user verifying anyway}, client-data mode in 3) plus 10 challenges on two base assertions, from the empty and two seeded stores, on a real Client over the contract store; every assertion is verified by an independent relying party (ECDSA verify under the key derived from the stored scalar, client data, rpIdHash, flags, user handle). Plus the instance differential: the complete tree of histories to depth 3 (thorough 4) over {assertion with the seeded / no / an unknown / the first created credential, registration rk on/off, getInfo, a registration and an assertion dropped while the user step is pending} on ONE long-lived Authenticator against fresh Authenticators per operation, on the contract store, Arc<Mutex<MemoryStore>> and Arc<Mutex<Option<Passkey>>> (results and final store must agree), and the same for ONE long-lived Client against fresh Clients over {registration rk/credProps on two origins, authentication with the seeded / no / an unknown / the first created credential, with and without prf, a request refused for its RP id}. Extra client data under every identifier-like literal of the client and types sources and the member names of related specifications (payment, topOrigin, tokenBinding, ...): type, challenge, origin and signature as always. State shared between instances: on one fresh thread, three authenticators whose stores hold the SAME credential id with three different keys (two RPs) assert in turn, twice, and one key handle is U2F-registered, used, re-registered and used again; every signature must verify under the key its own store holds. States are deduplicated on (RP, user handle, counter) per record in creation order; every transition is a distinct non-trivial real ceremony",
         true,
         g.stats,
     );
@@ -309,7 +319,72 @@ pub fn run(ctx: &Ctx) -> Result<Run, String> {
     Ok(run)
 }
 
+// ------------------------------------------------------------------------------------------
+// caller-supplied extra client data under every name the sources know (and the names of other
+// WebAuthn-family client data): whatever the extra member is called, the assertion's client data
+// stays a webauthn.get with the request's challenge and the caller's origin, and the signature
+// verifies
+
+pub fn extra_names() -> Vec<String> {
+    let mut v: Vec<String> = crate::core::dict::source_literals(&["passkey-client", "passkey-types"], 32)
+        .into_iter()
+        .filter_map(|l| String::from_utf8(l).ok())
+        .filter(|t| t.len() >= 2 && t.chars().next().is_some_and(|c| c.is_ascii_alphabetic()) && t.chars().all(|c| c.is_ascii_alphanumeric() || "_-.".contains(c)))
+        .collect();
+    v.extend(["payment", "payment.get", "payment.create", "topOrigin", "tokenBinding", "androidPackageName", "appid", "extensions", "hashAlgorithm", "clientExtensions", "authenticatorExtensions"].map(String::from));
+    v.sort();
+    v.dedup();
+    // members the client itself writes cannot be supplied as extras without colliding (C14's subject)
+    v.retain(|n| !["type", "challenge", "origin", "crossOrigin"].contains(&n.as_str()));
+    v
+}
+
+pub fn eval_extra_name(name: &str, register: bool) -> Vec<(String, String)> {
+    use passkey_client::DefaultClientDataWithExtra;
+    let mut fs: Vec<(String, String)> = vec![];
+    let store = init_store(1);
+    let mut client = mk_client(store.clone(), ScriptedUv::consenting(Log::new()), Org::HostIsRp, &AuthCfg::default());
+    let origin = Org::HostIsRp.url().unwrap();
+    let ch = challenges()[4].clone();
+    let mut m = serde_json::Map::new();
+    m.insert(name.to_string(), json!({"rpId": "example.com", "total": {"value": "1.00", "currency": "EUR"}, "instrument": {"displayName": "x"}}));
+    let extra = Value::Object(m.clone());
+    let expect_extra: Vec<(String, Value)> = m.into_iter().collect();
+    let r = crate::core::par::catch(|| {
+        if register {
+            let opts = creation_options(Reg { challenge: ch.clone(), ..Default::default() });
+            crate::core::exec::block_on(client.register(&origin, opts, DefaultClientDataWithExtra(extra.clone()))).map(|c| (c.response.client_data_json.clone(), None)).map_err(|e| format!("{e:?}"))
+        } else {
+            let opts = request_options(Auth { challenge: ch.clone(), allow: Some(vec![cred_id(1)]), ..Default::default() });
+            crate::core::exec::block_on(client.authenticate(&origin, opts, DefaultClientDataWithExtra(extra.clone()))).map(|c| (c.response.client_data_json.clone(), Some((c.response.authenticator_data.to_vec(), c.response.signature.to_vec())))).map_err(|e| format!("{e:?}"))
+        }
+    });
+    let what = if register { "webauthn.create" } else { "webauthn.get" };
+    match r {
+        Err(p) => fs.push(("panic".into(), p)),
+        Ok(Err(e)) => fs.push(("extra-data-name-breaks-ceremony".into(), format!("extra client data named {name:?}: the ceremony failed with {e}"))),
+        Ok(Ok((cdj, sig))) => {
+            let expect = ClientDataExpect { ty: what, challenge: &ch, origin: "https://example.com", extra: expect_extra };
+            for (k, d) in rp::check_client_data(&cdj, &expect) {
+                fs.push((format!("client-data/{k}"), format!("extra client data named {name:?}: {d}")));
+            }
+            if let Some((ad, sig)) = sig {
+                let (x, y) = public_xy_from_scalar(&fixed_scalar(1));
+                let mut msg = ad.clone();
+                msg.extend_from_slice(&rp::sha256(&cdj));
+                if let Err(e) = rp::verifying_key(&x, &y).and_then(|k| rp::ecdsa_verify(&k, &msg, &sig)) {
+                    fs.push(("signature-does-not-verify".into(), format!("extra client data named {name:?}: {e}")));
+                }
+            }
+        }
+    }
+    fs
+}
+
 pub fn replay(_ctx: &Ctx, case: &Value) -> Result<Vec<Finding>, String> {
+    if let Some(e) = case.get("extra_name") {
+        return Ok(eval_extra_name(e["name"].as_str().unwrap_or(""), e["register"].as_bool().unwrap_or(false)).into_iter().map(|(k, d)| Finding::new(format!("extra-name/kind={k}"), d, case.clone())).collect());
+    }
     if let Some(fs) = super::inst::replay(case, "instance") {
         return Ok(fs);
     }
